@@ -169,7 +169,7 @@ class Scratch:
                     break
         return ",".join(parts), used
 
-    def run(self, crate, harnesses, jobs=8, harness_timeout=300, extra_args=(), mem_gb=10, exact=True,
+    def run(self, crate, harnesses, jobs=8, harness_timeout=300, extra_args=(), mem_gb=7, exact=True,
             unwind_rules=None, probes=None):
         """Run the given harnesses (full names) of one crate in one cargo-kani
         invocation.  Returns {harness: HarnessResult}."""
@@ -294,6 +294,7 @@ class Scratch:
                 hr.reason = "VERIFICATION SUCCESSFUL"
             elif inconclusive or not checks:
                 hr.status = INCONCLUSIVE
+                inconclusive.sort(key=lambda x: (x[0].startswith("Undetermined"), x[0]))
                 hr.reason = "inconclusive: " + (
                     "; ".join("%s @ %s" % x for x in inconclusive[:3])
                     or "%s/%s" % (e.get("error_type"), e.get("exit_status")))
